@@ -32,7 +32,7 @@ class Inexact(Exception):
     pass
 
 
-def to_rat(x):
+def to_rat(x, tol=12):
     if isinstance(x, bool):
         return [int(x), 1, 0]
     if isinstance(x, int):
@@ -41,7 +41,7 @@ def to_rat(x):
         if x != x or x in (float("inf"), float("-inf")):
             raise Inexact()
         fr = F(x).limit_denominator(10 ** 6)
-        if abs(fr - F(x)) > F(1, 10 ** 12) * max(1, abs(fr)):
+        if abs(fr - F(x)) > F(1, 10 ** tol) * max(1, abs(fr)):
             raise Inexact()
     r = rnorm(fr)
     if abs(r[0]) >= 2 ** 30 or r[1] >= 2 ** 30 or abs(r[2]) > 12:
@@ -51,7 +51,7 @@ def to_rat(x):
 
 def view_of(world):
     p = world.project()
-    objs = [{"k": o["k"], "v": [[to_rat(x) for x in comp] for comp in o["v"]], "s": o["s"], "u": o["u"], "n": o["n"], "dt": o["dt"]}
+    objs = [{"k": o["k"], "v": [[to_rat(x, 6) for x in comp] for comp in o["v"]], "s": o["s"], "u": o["u"], "n": o["n"], "dt": o["dt"]}
             for o in p["objs"]]
     n = len(objs)
     share = [[i + 1, j + 1] for i in range(n) for j in range(i + 1, n) if p["share"][i][j]]
@@ -59,7 +59,7 @@ def view_of(world):
     if res["t"] == "dg":
         res = {"t": "dg", "keys": res["keys"],
                "mem": [{"kind": m["kind"], "scalar": m["scalar"], "unit": m["unit"], "name": m["name"], "dt": m["dt"],
-                        "c": [[to_rat(x) for x in comp] for comp in m["c"]], "shares": m["shares"]} for m in (res["mem"][k] for k in res["keys"])]}
+                        "c": [[to_rat(x, 6) for x in comp] for comp in m["c"]], "shares": m["shares"]} for m in (res["mem"][k] for k in res["keys"])]}
     elif res["t"] == "exc":
         res = {"t": "exc", "e": "KeyError" if res["e"] == "KeyError" else "Error"}
     return {"state": {"objs": objs, "share": share, "dgs": p["dgs"], "dss": p["dss"]}, "res": res}
@@ -115,12 +115,14 @@ def choose_action(rng, w, focus, budget):
                     continue
             x = O[o - 1]
             y = O[rhs - 1] if rhs else None
+            if str(x.dtype) == "float32" or (y is not None and str(y.dtype) == "float32"):
+                continue                      # float32 rounding cannot be recovered as exact rationals for the trace; covered by the S->C replay
             if not isinstance(x, V) and isinstance(y, V):
                 continue                      # Array op= Vector falls back to Vector.__r*__: not covered by C17
             if isinstance(x, V) and rhs and rhs != o and w._shares_with(x, y):
                 continue                      # component order would matter
             if x.dtype.kind != "f":
-                if f == "div" or (y is not None and y.dtype.kind == "f"):
+                if f == "div" or (y is not None and y.dtype.kind != "i"):
                     continue                  # result not representable in x's dtype
                 if y is not None and str(y.unit) != str(x.unit) and _compatible(x, y):
                     continue
